@@ -143,7 +143,12 @@ def run_verus_unit(u, scratch, tier, extra_flags=()):
             m_ = re.match(r"cannot find value `(\w+)` in this scope", e_.get("message", ""))
             sp_ = [x for x in e_.get("spans", []) if x.get("is_primary")]
             if m_ and sp_ and 0 < sp_[0]["line_start"] <= len(gen_lines_) and "/*@hint*/" in gen_lines_[sp_[0]["line_start"] - 1]:
-                missing.add(m_.group(1))
+                # scoped to the extracted function the hint belongs to (other functions may bind the same name)
+                fn_ = None
+                for (a_, b_, fnq_, _p, _s) in built.fn_ranges:
+                    if a_ <= sp_[0]["line_start"] <= b_:
+                        fn_ = fnq_.split("::")[-1].split("#")[0]
+                missing.add((fn_ + "::" if fn_ else "") + m_.group(1))
         if missing and not (missing <= vx.DROP_HINT_IDENTS):
             vx.DROP_HINT_IDENTS |= missing
             try:
